@@ -480,6 +480,10 @@ Theorem routes_validate V (validate : V -> result V) v :
   /\ filter_outcome validate v = validate v.
 Proof. repeat split. Qed.
 
+(* a raw key value offered through any number of relationship hops is validated by the innermost key attribute *)
+Theorem raw_key_validates V (validate : V -> result V) hops v : raw_key_outcome validate hops v = validate v.
+Proof. induction hops as [|h IH]; [reflexivity | exact IH]. Qed.
+
 (* non-vacuity: size=16, min=0, max=300 is accepted as a declaration, accepts 0 and 300, rejects -1 and 301 *)
 Example c08_nonvacuous_int :
   exists c, init_of true (mk_int_decl (Some 16) (Some false) (Some 0) (Some 300)) = Ok c
